@@ -40,6 +40,7 @@ pub fn label_case(obs: &mut Obs, case: &BuildCase, fam: &str, built: Option<&Bui
 }
 
 use crate::engine::{Engine, Job, JobCtx};
+use proptest::strategy::Strategy;
 
 /// Generated parts shared by the matrix-level properties, run after each property's own enumerated part:
 /// fully random valid cases, automatic-mask builds in small/medium versions, short payloads in forced larger
@@ -74,6 +75,16 @@ where
             jc.run_prop(14 << 20, &strat, per / 5, |(c, _)| c.to_json(), |(c, fam), o| {
                 o.label("part:steered");
                 check(c, fam, o)
+            });
+            // realistic payloads with everything automatic (or only level / mask chosen)
+            let strat = (crate::gens::realistic_payload(), proptest::prelude::any::<u16>()).prop_map(|(input, sel)| {
+                let level = if sel & 1 == 0 { None } else { Some(refmodel::tables::Level::from_index((sel as usize >> 1) % 4)) };
+                let mask = if sel & 8 == 0 { None } else { Some(((sel >> 4) % 8) as u8) };
+                BuildCase::new(input, crate::fq::Opts { mode: None, level, version: None, mask }).with_warm_sel(sel)
+            });
+            jc.run_prop(15 << 20, &strat, per / 5, |c| c.to_json(), |c, o| {
+                o.label("part:realistic_payloads");
+                check(c, "realistic", o)
             });
         }));
     }
